@@ -25,8 +25,8 @@ fn kinds() -> Vec<ErrorKind> {
 fn payloads() -> Vec<String> {
     vec![String::new(), "No space left on device (os error 28)".into(), "/var/cache/upload/abc123".into(), "a\r\nInjected: yes\r\n\r\n".into(), "\u{e9}\u{1F600}".into()]
 }
-fn check_one(desc: &str, e: HttpError, want_code: u16, want_body: &[u8], payload: &str) -> Option<String> {
-    let r: Response = e.into();
+fn check_one(desc: &str, e: HttpError, want_code: u16, want_body: &[u8], payload: &str) -> Option<String> { check_resp(desc, e.into(), want_code, want_body, payload) }
+fn check_resp(desc: &str, r: Response, want_code: u16, want_body: &[u8], payload: &str) -> Option<String> {
     if r.kind != ResponseKind::Normal || r.code != want_code || body_bytes(&r) != want_body {
         return Some(format!("map {desc} expected={want_code}/{:?} actual={}/{:?}", String::from_utf8_lossy(want_body), r.code, String::from_utf8_lossy(&body_bytes(&r))));
     }
@@ -68,6 +68,24 @@ fn run_all() -> (u64, Vec<String>) {
                 push(check_one(&format!("variant={v} kind={ki} payload={pi} ({k:?})"), e, 500, b"Internal server error", &p), &mut n);
             }
         }
+    }
+    // an I/O error a handler hands back with `?` (body conversions, file access): only undecodable data is the client's
+    // fault (400, fixed text); everything else is a 500 whose body is the fixed text -- never the error's own text
+    for (ki, k) in kinds().into_iter().enumerate() {
+        let (wc, wb): (u16, &[u8]) = if k == ErrorKind::InvalidData { (400, b"Bad request") } else { (500, b"Internal server error") };
+        for (pi, p) in payloads().into_iter().enumerate() {
+            let r: Response = std::io::Error::new(k, p.clone()).into();
+            push(check_resp(&format!("ioerror kind={ki} payload={pi} ({k:?})"), r, wc, wb, &p), &mut n);
+        }
+        let r: Response = std::io::Error::from(k).into();
+        push(check_resp(&format!("ioerror kind={ki} simple ({k:?})"), r, wc, wb, &std::io::Error::from(k).to_string()), &mut n);
+    }
+    for os in [2i32, 13, 22, 28, 36] {
+        let e = std::io::Error::from_raw_os_error(os);
+        let text = e.to_string();
+        let (wc, wb): (u16, &[u8]) = if e.kind() == ErrorKind::InvalidData { (400, b"Bad request") } else { (500, b"Internal server error") };
+        let r: Response = e.into();
+        push(check_resp(&format!("ioerror os={os}"), r, wc, wb, &text), &mut n);
     }
     let r: Response = HttpError::Disconnected.into();
     push(if r.kind == ResponseKind::DropConnection { None } else { Some("map variant=Disconnected expected=DropConnection actual=other".into()) }, &mut n);
